@@ -17,7 +17,7 @@ from automata.fa.dfa import DFA
 from automata.fa.nfa import NFA
 
 from harness import gen
-from harness.common import (Ctx, Names, Toks, call, enc_dfa, enc_nfa, enc_word, exc_name, sym_names,
+from harness.common import (guarded, Ctx, Names, Toks, call, enc_dfa, enc_nfa, enc_word, exc_name, sym_names,
                             toks)
 
 LEVEL = "proof"
@@ -96,9 +96,14 @@ def parse_model(line: str, is_nfa: bool):
                 isin_nonstr=isin2, valid=valid)
 
 
-def check_one(ctx: Ctx, m, w: str, is_nfa: bool, origin: str):
+@guarded
+def check_one(ctx: Ctx, m, w: str, is_nfa: bool, origin: str, enc3=None):
+    """enc3: encoding taken when the automaton was built (used for sequences of reads on one
+    instance under the mutable-automata option: the definition must not drift)."""
     drv = ctx.driver("drv_fa_core")
-    if is_nfa:
+    if enc3 is not None:
+        enc, st, sy = enc3
+    elif is_nfa:
         enc, st, sy = enc_nfa(m)
     else:
         enc, st, sy = enc_dfa(m)
@@ -194,6 +199,31 @@ def run(ctx: Ctx):
         sy = sorted(n.input_symbols)
         for _ in range(3):
             check_one(ctx, n, gen.rand_word(rng, sy, 8, gen.foreign_symbol(sy)), True, "random_nfa")
+    # the same readers under allow_mutable_automata=True: plain dict/set containers, several reads
+    # on ONE instance, always compared with the definition as it was when the automaton was built
+    import automata.base.config as global_config
+    for _ in range(ctx.budget(500, 15000)):
+        global_config.allow_mutable_automata = True
+        try:
+            if rng.random() < 0.6:
+                n0 = gen.rand_nfa(rng, 6)
+                m = NFA(states=set(n0.states), input_symbols=set(n0.input_symbols),
+                        transitions={k: {a: set(ts) for a, ts in row.items()} for k, row in n0.transitions.items()},
+                        initial_state=n0.initial_state, final_states=set(n0.final_states))
+                enc3, is_nfa = enc_nfa(m), True
+            else:
+                d0 = gen.rand_dfa(rng, 6)
+                m = DFA(states=set(d0.states), input_symbols=set(d0.input_symbols),
+                        transitions={k: dict(row) for k, row in d0.transitions.items()},
+                        initial_state=d0.initial_state, final_states=set(d0.final_states),
+                        allow_partial=d0.allow_partial)
+                enc3, is_nfa = enc_dfa(m), False
+            sy = sorted(m.input_symbols)
+            for _ in range(4):
+                check_one(ctx, m, gen.rand_word(rng, sy, 8, gen.foreign_symbol(sy)), is_nfa,
+                          "random_mutable_option_sequence", enc3=enc3)
+        finally:
+            global_config.allow_mutable_automata = False
 
 
 def replay(ctx: Ctx, path: str) -> int:
